@@ -38,6 +38,11 @@ func c09Round2(c *Ctx) {
 	for _, f := range getBodyFresh(p) {
 		c.Check(f.OK, "R09k", f.Key, f.Pos, "fresh reader", f.Detail)
 	}
+	// ---- R09l
+	c.Rule("R09l", "the APK signer digests the end-of-directory record of the serialiser whose output it patches in", 1)
+	for _, f := range apkDigestedDirectoryIsWrittenDirectory(p) {
+		c.Check(f.OK, "R09l", f.Key, f.Pos, "", f.Detail)
+	}
 	// ---- R09j
 	if fn := p.Func("lib/signappx.(*blockMap).AddFile"); fn == nil {
 		c.Undecided("R09j", "(*blockMap).AddFile", "-", "function not found")
